@@ -182,8 +182,10 @@ def r07_1(chk, sht, pyx, K):
                     sizes[t[2]] = a[2][0].key()
     chk.ob("R07.1", SHT, "SHT.__init__", "plm_work_array has nplm() entries", sizes.get("plm_work_array") == "self.nplm()",
            found=sizes.get("plm_work_array"))
-    chk.ob("R07.1", SHT, "SHT.__init__", "fft_work_array has nphi entries", sizes.get("fft_work_array") == "self.nphi",
-           found=sizes.get("fft_work_array"))
+    # ... nphi read back from the attribute, or the very value that is stored in it (a local that holds it)
+    stored_nphi = {e.value.key() for e in ev.events if e.kind == "store" and e.target.key() == "self.nphi" and not e.guards}
+    chk.ob("R07.1", SHT, "SHT.__init__", "fft_work_array has nphi entries", sizes.get("fft_work_array") == "self.nphi"
+           or (len(stored_nphi) == 1 and sizes.get("fft_work_array") in stored_nphi), found=sizes.get("fft_work_array"))
     for q in ("SHT.analysis", "SHT.analysis_pure_python", "SHT.analysis_pure_python_cplx"):
         ev = sht.ev(q)
         chk.saw(SHT, q)
@@ -562,6 +564,8 @@ def legendre_refresh(chk, sht):
             if e.kind == "call" and "kernel" in (e.target.key() if e.target is not None else "") and any(x.key() == "self" for x in e.extra.get("args", ())):
                 reads.append((i, e))
             elif e.kind in ("assign", "aug", "store", "return") and "self.plm_work_array" in k:
+                if e.kind == "assign" and k == "self.plm_work_array":
+                    continue            # a local name for the work array reads none of its entries
                 reads.append((i, e))
         if not reads:
             continue
@@ -654,8 +658,15 @@ def r07_7(chk, sht):
     nphi = P.atom(("attr", P.name("self"), "nphi"))
     ar = P.atom(("call", P.name("numpy.arange"), (P.const(0), nphi)))
     ar1 = P.atom(("call", P.name("numpy.arange"), (nphi,)))
-    chk.ob("R07.7", SHT, "SHT.__init__", "phi = arange(nphi) * 2 pi / nphi", phi is not None and
-           (phi == ar * 2 * PI / nphi or phi == ar1 * 2 * PI / nphi), found=str(phi))
+    okphi = phi is not None and (phi == ar * 2 * PI / nphi or phi == ar1 * 2 * PI / nphi)
+    if not okphi and phi is not None:
+        # the same grid written with the value that is stored as self.nphi (a local) instead of the attribute
+        for e in ev.events:
+            if e.kind == "store" and e.target.key() == "self.nphi" and not e.guards:
+                nv = e.value
+                okphi = okphi or phi == P.atom(("call", P.name("numpy.arange"), (P.const(0), nv))) * 2 * PI / nv \
+                    or phi == P.atom(("call", P.name("numpy.arange"), (nv,))) * 2 * PI / nv
+    chk.ob("R07.7", SHT, "SHT.__init__", "phi = arange(nphi) * 2 pi / nphi", okphi, found=str(phi))
     # default nphi: helper(2 L + 1) with a helper that never returns less than it is asked for  =>  nphi >= 2 L + 1
     nst = [e for e in ev.events if e.kind == "store" and e.target.key() == "self.nphi" and any("nphi" in c.key() and pol for c, pol in e.guards)]
     if not nst:
